@@ -1,35 +1,54 @@
-(* Props/C13.v — Dictionary form is a faithful, independent copy.  (interim: structural theorems; the
-   round-trip theorem from Proofs/DictProofs.v is added when that library is complete) *)
-From NIR Require Import Model.Serial Proofs.SerialProofs Proofs.MirrorClosedProofs.
+(* Props/C13.v — Dictionary form is a faithful, independent copy. *)
+From NIR Require Import Model.Serial Proofs.SerialProofs Proofs.MirrorClosedProofs Proofs.DictProofs.
 
-(* the dictionary of a node contains every field under its own name, unchanged, plus 'type' *)
+(* `built n`: n was produced by the constructors (leaf: construct k args = Ok n; graph: mk_graph over built
+   children with distinct names) — what evaluating a recipe yields. *)
+
+(* FAITHFUL: from_dict (to_dict n) succeeds and returns the same node: same kind, the same field list (names,
+   order AND values: identical Python/numpy value types), same types, same children in the same order, same
+   edges, same metadata — for graphs of any depth; also with undefined (None) annotations *)
+Theorem c13_round_trip : forall n, built n -> exists n', from_dict (to_dict n) = Ok n' /\ same_node n' n.
+Proof. exact dict_round_trip. Qed.
+
+(* plain equality whenever the serialised type dictionaries have the single entry the class serialises
+   (the only thing the dictionary form drops is an extra, non-'input' entry of an Input/Flatten type
+   dictionary given as a dict argument: extra_keys_lost) *)
+Theorem c13_round_trip_eq : forall n, built n -> single_typed n -> from_dict (to_dict n) = Ok n.
+Proof. exact dict_round_trip_eq. Qed.
+
+Theorem c13_leaf_round_trip : forall k args k' fs tin tout,
+  k <> KGraph -> construct k args = Ok (Leaf k' fs tin tout) ->
+  from_dict (to_dict (Leaf k' fs tin tout)) = Ok (Leaf k' fs (canon_tin k' tin) (canon_tout k' tout)).
+Proof. exact construct_round. Qed.
+
+(* a second round trip is the identity *)
+Theorem c13_round_trip_twice : forall n n1, built n -> from_dict (to_dict n) = Ok n1 ->
+  from_dict (to_dict n1) = Ok n1.
+Proof. exact dict_round_trip_twice. Qed.
+
+(* PLAIN: the keys of the dictionary of a node are its documented fields (the dataclass fields of the regenerated
+   table minus the two derived types), then 'type', then the class-specific entry; the values are the fields *)
+Theorem c13_keys : forall k fs tin tout,
+  map fst (to_dict (Leaf k fs tin tout)) =
+  map fst fs ++ ["type"] ++ (match k with KInput | KOutput => ["shape"] | KFlatten => ["input_type"] | _ => [] end).
+Proof. exact to_dict_keys_leaf. Qed.
+
+Theorem c13_fields_are_documented : forall k args k' fs tin tout,
+  construct k args = Ok (Leaf k' fs tin tout) -> map fst fs = filter not_type_key (class_keys k).
+Proof. exact construct_keys. Qed.
+
 Theorem c13_fields_in_dict : forall k fs tin tout f v,
   In (f, v) fs -> In (f, v) (to_dict (Leaf k fs tin tout)).
 Proof. exact to_dict_leaf_field. Qed.
 
-Theorem c13_type_tag : forall n, In ("type", VStr (kind_name (node_kind n))) (to_dict n).
-Proof. exact to_dict_type. Qed.
+(* INDEPENDENCE: in the model values are immutable and `to_dict` returns a value, so "shares no mutable state"
+   cannot be expressed as a theorem here; it is established on the code by the alias matrix and the
+   mutate-and-compare oracle of the harness (DESIGN.md 11.2). *)
 
-Theorem c13_children_in_dict : forall ch es gi go m name c,
-  In (name, c) ch ->
-  exists l, In ("nodes", VDict l) (to_dict (Graph ch es gi go m)) /\ In (name, VDict (to_dict c)) l.
-Proof. exact to_dict_child. Qed.
-
-Theorem c13_edges_in_dict : forall ch es gi go m,
-  In ("edges", VList (map (fun e => VTuple [VStr (fst e); VStr (snd e)]) es)) (to_dict (Graph ch es gi go m)).
-Proof. exact to_dict_edges. Qed.
-
-(* whatever from_dict builds is the primitive its 'type' names *)
-Theorem c13_from_dict_kind : forall d n, from_dict d = Ok n ->
-  exists s, assoc "type" d = Some (VStr s) /\ In s whitelist /\ kind_name (node_kind n) = s.
-Proof. exact from_dict_closed. Qed.
-
-(* INDEPENDENCE: in the model, values are immutable and `to_dict` returns a value, so "shares no mutable
-   state" cannot be expressed as a theorem here; it is established on the code by the alias matrix and
-   the mutate-and-compare oracle of the harness (see DESIGN.md, C13). *)
-
+Print Assumptions c13_round_trip.
+Print Assumptions c13_round_trip_eq.
+Print Assumptions c13_leaf_round_trip.
+Print Assumptions c13_round_trip_twice.
+Print Assumptions c13_keys.
+Print Assumptions c13_fields_are_documented.
 Print Assumptions c13_fields_in_dict.
-Print Assumptions c13_type_tag.
-Print Assumptions c13_children_in_dict.
-Print Assumptions c13_edges_in_dict.
-Print Assumptions c13_from_dict_kind.
